@@ -203,7 +203,7 @@ def sym_roundtrip(ctx, cfg):
         prots.append(("sp|Q%d|X_%d" % (pi, pi), seq))
     files = [[] for _ in range(nfiles)]
     for pi, (name, seq) in enumerate(prots):
-        rec = ">" + name + (" some description OS=x" if pi % 2 == 0 else "")
+        rec = ">" + name + (" some description p.Gly12->Asp (G->D) OS=x" if pi % 2 == 0 else "")  # a '>' inside a description is not a record start
         lines = [seq[i:i + width] for i in range(0, len(seq), width)] if width else ([seq] if seq else [])
         files[pi % nfiles].append("\n".join([rec] + lines))
     paths = []
